@@ -124,6 +124,23 @@ NatEl(n, parts, tag) ==      \* parts \subseteq {"4min","4max","6min","6max","pm
        \o o("4max", "SetRangeIPv4Max", V(tag + 1, 4)) \o o("6min", "SetRangeIPv6Min", V(tag + 2, 16))
        \o o("6max", "SetRangeIPv6Max", V(tag + 3, 16)) \o o("pmin", "SetRangeProtoMin", V(tag + 4, 2))
        \o o("pmax", "SetRangeProtoMax", V(tag + 5, 2)))
+\* the NAT flag setters: SNAT/DNAT and hash/random are mutually exclusive (the second call of a pair is refused and changes nothing)
+NatFlagBit(c) == CASE c = "SetSNAT" -> 1 [] c = "SetDNAT" -> 2 [] c = "SetPersistent" -> 4 [] c = "SetProtoHash" -> 8 [] c = "SetRandom" -> 16
+NatFlagExcl(c) == CASE c = "SetSNAT" -> 2 [] c = "SetDNAT" -> 1 [] c = "SetProtoHash" -> 16 [] c = "SetRandom" -> 8 [] OTHER -> 0
+HasBit(v, b) == (v \div b) % 2 = 1
+RECURSIVE NatFlagsAfter(_, _)
+NatFlagsAfter(calls, v) == IF calls = <<>> THEN v
+                           ELSE LET c == Head(calls)  x == NatFlagExcl(c)
+                                    v2 == IF x # 0 /\ HasBit(v, x) THEN v ELSE (IF HasBit(v, NatFlagBit(c)) THEN v ELSE v + NatFlagBit(c)) IN
+                                NatFlagsAfter(Tail(calls), v2)
+NatFlagsEl(n, calls, tag) ==
+  El(n, [T |-> "NXActionCTNAT", Flags |-> <<0, NatFlagsAfter(calls, 0)>>, IPv4Min |-> V(tag, 4)],
+     <<New(n, "NewNXActionCTNAT", <<>>)>> \o [i \in DOMAIN calls |-> Call(n, calls[i], <<>>)] \o <<Call(n, "SetRangeIPv4Min", <<V(tag, 4)>>)>>)
+\* tunnel metadata (variable length) match field
+TunMetaEl(n, idx, len, masked, tag) ==
+  El(n, IF masked THEN [T |-> "MatchField", Class |-> <<0, 1>>, Field |-> <<40 + idx>>, HasMask |-> TRUE, Value |-> V(tag, len), Mask |-> V(tag + 1, len)]
+                  ELSE [T |-> "MatchField", Class |-> <<0, 1>>, Field |-> <<40 + idx>>, HasMask |-> FALSE, Value |-> V(tag, len)],
+     <<New(n, "NewTunMetadataField", IF masked THEN <<idx, V(tag, len), V(tag + 1, len)>> ELSE <<idx, V(tag, len), Nil>>)>>)
 NoteEl(n, len, tag) == El(n, [T |-> "NXActionNote", Note |-> V(tag, len)], <<New(n, "NewNXActionNote", <<>>), Set(n, "Note", V(tag, len))>>)
 CntIDs(n, k, tag) == LET ids == [i \in 1..k |-> V(tag + i, 2)] IN
   El(n, [T |-> "NXActionDecTTLCntIDs", IDs |-> ids], <<New(n, "NewNXActionDecTTLCntIDs", <<BE16(k)>> \o ids)>>)
@@ -137,9 +154,9 @@ LeafAct(n, kind, tag) ==
     [] kind = "pushmpls" -> El(n, [T |-> "ActionPush", Type |-> <<0, 19>>, EtherType |-> V(tag, 2)], <<New(n, "NewActionPushMpls", <<V(tag, 2)>>)>>)
     [] kind = "popvlan"  -> El(n, [T |-> "ActionPopVlan"], <<New(n, "NewActionPopVlan", <<>>)>>)
     [] kind = "popmpls"  -> El(n, [T |-> "ActionPopMpls", EtherType |-> V(tag, 2)], <<New(n, "NewActionPopMpls", <<V(tag, 2)>>)>>)
-    [] kind = "setfield" -> LET f == MF(Nm(n, 1), 1 + (tag % NMF), tag, FALSE) IN
+    [] kind = "setfield" -> LET f == MF(Nm(n, 1), DecMF(tag), tag, FALSE) IN
                             El(n, [T |-> "ActionSetField", Field |-> f.tree], f.ops \o <<New(n, "NewActionSetField", <<Ref(f.n)>>)>>)
-    [] kind = "setfieldm" -> LET f == MF(Nm(n, 1), 1 + ((tag * 3) % NMF), tag, TRUE) IN
+    [] kind = "setfieldm" -> LET f == MF(Nm(n, 1), DecMF(tag * 3), tag, TRUE) IN
                             El(n, [T |-> "ActionSetField", Field |-> f.tree], f.ops \o <<New(n, "NewActionSetField", <<Ref(f.n)>>)>>)
     [] kind = "conj" -> El(n, [T |-> "NXActionConjunction", Clause |-> V(tag, 1), NClause |-> V(tag + 1, 1), ID |-> V(tag + 2, 4)],
                            <<New(n, "NewNXActionConjunction", <<V(tag, 1), V(tag + 1, 1), V(tag + 2, 4)>>)>>)
@@ -170,9 +187,9 @@ LeafAct(n, kind, tag) ==
     [] kind = "cntids2" -> CntIDs(n, 2, tag) [] kind = "cntids4" -> CntIDs(n, 4, tag)
     [] kind = "note0" -> NoteEl(n, 0, tag) [] kind = "note3" -> NoteEl(n, 3, tag) [] kind = "note6" -> NoteEl(n, 6, tag)
     [] kind = "note14" -> NoteEl(n, 14, tag)
-    [] kind = "regload2" -> LET f == MF(Nm(n, 1), 1 + (tag % NMF), tag, FALSE) IN
+    [] kind = "regload2" -> LET f == MF(Nm(n, 1), DecMF(tag), tag, FALSE) IN
                             El(n, [T |-> "NXActionRegLoad2", DstField |-> f.tree], f.ops \o <<New(n, "NewNXActionRegLoad2", <<Ref(f.n)>>)>>)
-    [] kind = "regload2m" -> LET f == MF(Nm(n, 1), 1 + ((tag * 5) % NMF), tag, TRUE) IN
+    [] kind = "regload2m" -> LET f == MF(Nm(n, 1), DecMF(tag * 5), tag, TRUE) IN
                             El(n, [T |-> "NXActionRegLoad2", DstField |-> f.tree], f.ops \o <<New(n, "NewNXActionRegLoad2", <<Ref(f.n)>>)>>)
     [] kind = "controller" -> El(n, [T |-> "NXActionController", MaxLen |-> V(tag, 2), ControllerID |-> V(tag + 1, 2), Reason |-> V(tag + 2, 1)],
                                  <<New(n, "NewNXActionController", <<V(tag + 1, 2)>>), Set(n, "MaxLen", V(tag, 2)), Set(n, "Reason", V(tag + 2, 1))>>)
@@ -184,6 +201,11 @@ LeafAct(n, kind, tag) ==
     [] kind = "nat6" -> NatEl(n, {"6min", "6max"}, tag) [] kind = "natp" -> NatEl(n, {"4min", "pmin", "pmax"}, tag)
     [] kind = "natall" -> NatEl(n, {"4min", "4max", "pmin", "pmax"}, tag) [] kind = "natpmax" -> NatEl(n, {"4min", "pmax"}, tag)
 \* conntrack with nested actions (children complete before they are added)
+CtForceEl(n, kids, tag) ==
+  LET t == [T |-> "NXActionConnTrack", Flags |-> <<0, 3>>, ZoneSrc |-> Zeros(4), ZoneOfsNbits |-> V(tag, 2), RecircTable |-> V(tag + 1, 1), Alg |-> <<0, 0>>,
+            Actions |-> TreesOf(kids)] IN
+  El(n, t, OpsOf(kids) \o <<New(n, "NewNXActionConnTrack", <<>>), Call(n, "Force", <<>>), Call(n, "Commit", <<>>), Call(n, "ZoneImm", <<V(tag, 2)>>), Call(n, "Table", <<t.RecircTable>>)>>
+       \o [i \in DOMAIN kids |-> Call(n, "AddAction", <<Ref(kids[i].n)>>)])
 CtEl(n, kids, tag, zoneRange) ==
   LET zf == HdrField(Nm(n, 90), "NXM_NX_REG" \o ToString(tag % 16), FALSE)
       f == tag % 20   l == f + (tag % 12)
